@@ -25,9 +25,9 @@ def generate(g, tier):
     cases = []
     for _ in range(count(tier, 120, 1200)):
         invs, files, metas = [], {}, []
-        home_cfg = r.choice([None, None, dict(DEFAULTS), dict(stack_limit=150), dict(include_comments=True, stack_limit=30), dict(use_project_config=False, stack_limit=9)])
+        home_cfg = r.choice([None, None, dict(DEFAULTS), dict(stack_limit=150), dict(include_comments=True, stack_limit=30), dict(use_project_config=False, stack_limit=9), dict(stack_limit=3), dict(stack_limit=500), dict(stack_limit=0, include_comments=True)])
         cfgs = {}
-        if g.chance(0.4): cfgs['proj'] = r.choice([dict(include_comments=True), dict(DEFAULTS), dict(stack_limit=7, use_project_config=True), dict(use_project_config=False, include_comments=True), dict(flipper_commands=False)])
+        if g.chance(0.4): cfgs['proj'] = r.choice([dict(include_comments=True), dict(DEFAULTS), dict(stack_limit=7, use_project_config=True), dict(use_project_config=False, include_comments=True), dict(flipper_commands=False), dict(stack_limit=1000), dict(stack_limit=4, include_comments=True), dict(stack_limit=201)])
         pre = {}
         for k in range(r.randint(1, 4)):
             ag = AstGen(g.r, W, 3)
@@ -44,7 +44,7 @@ def generate(g, tier):
             # the expectation below is that of the program itself: keep every stack limit that may be in force
             # (command line, project file, home file, default) clear of the program's own nesting
             in_force = [inv_limit] if inv_limit is not None else [DEFAULTS['stack_limit'], (home_cfg or {}).get('stack_limit'), cfgs.get('proj', {}).get('stack_limit')]
-            if any(l is not None and it.max_depth + 3 > l for l in in_force): continue
+            tight = any(l is not None and it.max_depth + 3 > l for l in in_force)
             if kind == 'fail-end':
                 text += '\n$STRING 1/0'; nlines = text.count('\n') + 1
                 m = dict(expect='fail', cls='DivideByZeroError', line=nlines, prints=exp_prints)
@@ -58,6 +58,7 @@ def generate(g, tier):
                 m = dict(expect='ok', out=exp_out + ['STRING from-lib'])
             else:
                 m = dict(expect='ok', out=exp_out)
+            if tight: m = dict(expect='either')     # a limit near the program's own nesting: only the side effects are judged
             files[src] = text
             stale = r.choice([None, 'STALE PAYLOAD\n', ''])
             if stale is not None and out not in pre and not any(i['output'] == out for i in invs): pre[out] = stale
@@ -111,7 +112,10 @@ def oracle(cases, results):
             if m['family'] == 'compile':
                 sm = m['steps'][k]
                 outp = 'work/' + inv['output']
-                if sm['expect'] == 'ok':
+                if sm['expect'] == 'either':
+                    if (others - {outp}) if outp in changed else others:
+                        fs.append(fail(i, f'invocation {k}: other files touched: {sorted(others - {outp})}', 'cli:other-files')); break
+                elif sm['expect'] == 'ok':
                     want = '\n'.join(sm['out'])
                     if a.get(outp) != want:
                         fs.append(fail(i, f'invocation {k}: output file should hold {want[:80]!r}, holds {a.get(outp, "<absent>")[:80]!r}', 'cli:output-content')); break
